@@ -4,6 +4,7 @@ go 1.25.0
 
 require (
 	cuelang.org/go v0.0.0
+	github.com/cockroachdb/apd/v3 v3.2.3
 	golang.org/x/mod v0.38.0
 	golang.org/x/text v0.40.0
 	pgregory.net/rapid v1.3.0
@@ -11,7 +12,6 @@ require (
 
 require (
 	cuelabs.dev/go/oci/ociregistry v0.0.0-20260717083115-5eb5795f322a // indirect
-	github.com/cockroachdb/apd/v3 v3.2.3 // indirect
 	github.com/emicklei/proto v1.14.3 // indirect
 	github.com/goccy/go-yaml v1.19.2 // indirect
 	github.com/google/uuid v1.6.0 // indirect
